@@ -29,6 +29,9 @@ type Plan struct {
 	// BeforeRead is called before every read-side operation (Get, Has, NewIterator, NewSnapshot):
 	// a preemption point at which a harness may let another party of the simulation run.
 	BeforeRead func(kind string)
+	// AfterRead is called after a Get/Has has returned its data to the caller's callback and before
+	// the caller goes on: the point at which a racing writer makes what was just read stale.
+	AfterRead func(kind string)
 }
 
 type DB struct {
@@ -122,7 +125,11 @@ func (d *DB) Get(key []byte, cb func([]byte) error) error {
 	if err := d.readEvent(); err != nil {
 		return err
 	}
-	return d.Inner.Get(key, cb)
+	err := d.Inner.Get(key, cb)
+	if d.Plan.AfterRead != nil && !d.Paused && !d.Dead {
+		d.Plan.AfterRead("get")
+	}
+	return err
 }
 
 func (d *DB) NewIterator(prefix []byte, withUpperBound bool) (db.Iterator, error) {
@@ -272,7 +279,11 @@ func (b *ibatch) Get(k []byte, cb func([]byte) error) error {
 	if err := b.d.readEvent(); err != nil {
 		return err
 	}
-	return b.ib.Get(k, cb)
+	err := b.ib.Get(k, cb)
+	if b.d.Plan.AfterRead != nil && !b.d.Paused && !b.d.Dead {
+		b.d.Plan.AfterRead("batch.get")
+	}
+	return err
 }
 
 func (b *ibatch) NewIterator(p []byte, ub bool) (db.Iterator, error) {
